@@ -95,15 +95,38 @@ Fixpoint heap_set (h : heap) (id : N) (o : hobj) : heap :=
   | (i, o') :: t => if i =? id then (i, o) :: t else (i, o') :: heap_set t id o
   end.
 
+(* ---- list helpers usable under nested recursion (the function stays outside the fix) ---- *)
+Section All2.
+  Variable A : Type.
+  Variable f : A -> A -> bool.
+  Fixpoint all2 (l1 l2 : list A) : bool :=
+    match l1, l2 with
+    | [], [] => true
+    | x :: t1, y :: t2 => f x y && all2 t1 t2
+    | _, _ => false
+    end.
+End All2.
+Arguments all2 {A} f l1 l2.
+
+Section MapOpt.
+  Variables A B : Type.
+  Variable f : A -> option B.
+  Fixpoint map_opt (l : list A) : option (list B) :=
+    match l with
+    | [] => Some []
+    | x :: t =>
+        match f x, map_opt t with
+        | Some y, Some ys => Some (y :: ys)
+        | _, _ => None
+        end
+    end.
+End MapOpt.
+Arguments map_opt {A B} f l.
+
 (* ---- structural equality (used for ghost bookkeeping and tests) -------- *)
 
 Fixpoint val_eqb (a b : val) {struct a} : bool :=
-  let fix list_eqb (l1 l2 : list val) : bool :=
-    match l1, l2 with
-    | [], [] => true
-    | x :: t1, y :: t2 => val_eqb x y && list_eqb t1 t2
-    | _, _ => false
-    end in
+  let list_eqb := all2 val_eqb in
   match a, b with
   | VNone, VNone => true
   | VBool x, VBool y => Bool.eqb x y
